@@ -315,6 +315,9 @@ func and(ts ...string) string {
 		if t == "true" || t == "" {
 			continue
 		}
+		if t == "false" {
+			return "false"
+		}
 		xs = append(xs, t)
 	}
 	switch len(xs) {
@@ -331,6 +334,9 @@ func or(ts ...string) string {
 	for _, t := range ts {
 		if t == "false" || t == "" {
 			continue
+		}
+		if t == "true" {
+			return "true"
 		}
 		xs = append(xs, t)
 	}
@@ -353,8 +359,36 @@ func not(t string) string {
 	return "(not " + t + ")"
 }
 
-func eq(a, b string) string      { return "(= " + a + " " + b + ")" }
-func implies(a, b string) string { return "(=> " + a + " " + b + ")" }
+func eq(a, b string) string {
+	if a == b {
+		return "true"
+	}
+	if isPlainNumber(a) && isPlainNumber(b) {
+		return "false" // distinct literals
+	}
+	return "(= " + a + " " + b + ")"
+}
+
+func isPlainNumber(s string) bool {
+	if s == "" {
+		return false
+	}
+	for _, r := range s {
+		if r < '0' || r > '9' {
+			return false
+		}
+	}
+	return true
+}
+func implies(a, b string) string {
+	if a == "true" {
+		return b
+	}
+	if a == "false" || b == "true" {
+		return "true"
+	}
+	return "(=> " + a + " " + b + ")"
+}
 func ite(c, a, b string) string {
 	if c == "true" {
 		return a
